@@ -9,11 +9,16 @@ import (
 	"net/http"
 	"net/http/httptest"
 	"net/url"
+	"os"
 	"path"
+	"path/filepath"
+	"regexp"
 	"sort"
 	"strings"
 	"testing"
+	"time"
 
+	"github.com/golang-jwt/jwt/v4"
 	"github.com/gotid/god/api/pathvar"
 	"github.com/gotid/god/api/router"
 	"github.com/gotid/god/lib/logx"
@@ -22,6 +27,64 @@ import (
 )
 
 func init() { logx.Disable() }
+
+const c03eSecret = "c03e-secret-0123456789"
+
+// c03eDict: a fuzzing dictionary taken from the tree under test — string literals and
+// identifiers of the packages between the router and the handler (path variables, auth
+// handler, request parsing). JWT claims are copied into the request context under their
+// names by the auth middleware; a claim named like something the code itself uses must not
+// disturb dispatch or the binding of path variables.
+var c03eDict = func() []string {
+	root := os.Getenv("VERIF_REPO")
+	if root == "" {
+		root = "/repo"
+	}
+	set := map[string]bool{"sub": true, "aud": true, "uid": true, "x": true, "y": true}
+	lit := regexp.MustCompile(`"([A-Za-z][A-Za-z0-9_.:-]{1,30})"`)
+	ident := regexp.MustCompile(`\b([A-Za-z][A-Za-z0-9]{3,24})\b`)
+	for _, dir := range []string{"api/pathvar", "api/handler", "api/httpx", "api/internal/context", "api/router", "api/token"} {
+		files, _ := filepath.Glob(filepath.Join(root, dir, "*.go"))
+		for _, f := range files {
+			if strings.HasSuffix(f, "_test.go") {
+				continue
+			}
+			b, err := os.ReadFile(f)
+			if err != nil {
+				continue
+			}
+			for _, m := range lit.FindAllStringSubmatch(string(b), -1) {
+				set[m[1]] = true
+			}
+			if dir == "api/pathvar" || dir == "api/internal/context" {
+				for _, m := range ident.FindAllStringSubmatch(string(b), -1) {
+					set[m[1]] = true
+				}
+			}
+		}
+	}
+	for _, std := range []string{"exp", "iat", "nbf", "iss", "jti"} { // registered claims keep their meaning
+		delete(set, std)
+	}
+	var out []string
+	for k := range set {
+		out = append(out, k)
+	}
+	sort.Strings(out)
+	return out
+}()
+
+func c03eToken(claims []string) string {
+	mc := jwt.MapClaims{"exp": time.Now().Add(time.Hour).Unix(), "iat": time.Now().Add(-time.Minute).Unix()}
+	for i, n := range claims {
+		mc[n] = fmt.Sprintf("claim-%d", i)
+	}
+	tok, err := jwt.NewWithClaims(jwt.SigningMethodHS256, mc).SignedString([]byte(c03eSecret))
+	if err != nil {
+		panic(err)
+	}
+	return tok
+}
 
 type c03eRoute struct {
 	M string `json:"m"`
@@ -35,6 +98,10 @@ type c03eCase struct {
 	Prefix [][]string `json:"prefix,omitempty"`
 	Share  []int      `json:"share,omitempty"`
 	Custom bool          `json:"custom,omitempty"` // custom not-found handler behind the engine wrapper
+	// Jwt[g]: group g is added WithJwt; every request then carries a valid token whose custom
+	// claims are named Claims (drawn from c03eDict, the tree's own identifiers and literals)
+	Jwt    []bool   `json:"jwt,omitempty"`
+	Claims []string `json:"claims,omitempty"`
 	Reqs   []c03eRoute   `json:"reqs"`
 }
 
@@ -153,6 +220,10 @@ func c03eInterp(c c03eCase) (v kit.Verdict) {
 		for _, pf := range prefixes {
 			opts = append(opts, WithPrefix(pf))
 		}
+		if gi < len(c.Jwt) && c.Jwt[gi] {
+			opts = append(opts, WithJwt(c03eSecret))
+			classes["jwt-group"] = true
+		}
 		srv.AddRoutes(rs, opts...)
 	}
 	rt := srv.router
@@ -176,10 +247,20 @@ func c03eInterp(c c03eCase) (v kit.Verdict) {
 		sort.Strings(v.Classes)
 		return v
 	}
+	hdr := http.Header{}
+	for _, j := range c.Jwt {
+		if j {
+			hdr.Set("Authorization", "Bearer "+c03eToken(c.Claims))
+			if len(c.Claims) > 0 {
+				classes["jwt-custom-claims"] = true
+			}
+			break
+		}
+	}
 	for _, q := range c.Reqs {
 		ran, ranVars = nil, nil
 		rec := httptest.NewRecorder()
-		rt.ServeHTTP(rec, &http.Request{Method: q.M, URL: &url.URL{Path: q.P}, Header: http.Header{}, RemoteAddr: "127.0.0.1:1"})
+		rt.ServeHTTP(rec, &http.Request{Method: q.M, URL: &url.URL{Path: q.P}, Header: hdr.Clone(), RemoteAddr: "127.0.0.1:1"})
 		rsegs := c03eSegs(q.P)
 		what := fmt.Sprintf("request %s %q over engine groups %v", q.M, q.P, c.Groups)
 		matches := map[int][]map[string][]string{} // handler id -> variable bindings of its matching registrations
@@ -362,6 +443,15 @@ func c03eGen(rt *rapid.T) c03eCase {
 			if len(r.P) > 0 && r.P[0] == '/' {
 				eff = append(eff, r)
 			}
+		}
+	}
+	if rapid.IntRange(0, 2).Draw(rt, "jwt") == 0 {
+		for g := 0; g < ng; g++ {
+			c.Jwt = append(c.Jwt, rapid.IntRange(0, 2).Draw(rt, "jwtg") > 0)
+		}
+		nc := rapid.IntRange(0, 4).Draw(rt, "nclaims")
+		for i := 0; i < nc; i++ {
+			c.Claims = append(c.Claims, rapid.SampledFrom(c03eDict).Draw(rt, "claim"))
 		}
 	}
 	n := rapid.IntRange(1, 10).Draw(rt, "nreqs")
